@@ -53,8 +53,10 @@ class Env:
     """Everything one harness path needs: engines, tags, real leaf relations, oracle tables,
     parameter bindings."""
 
-    def __init__(self, tags=None):
+    def __init__(self, tags=None, symbolic=False):
         from lsst.daf.relation import iteration, sql
+
+        self.symbolic = symbolic  # wrap integer constants as SymInt (hash rule, DESIGN 2.2)
 
         self.tags = tags or mk_tags()
         self.engines = {
@@ -68,7 +70,11 @@ class Env:
         self.metadata = None
 
     def val(self, v):
-        return self.bind[v] if isinstance(v, str) else v
+        if isinstance(v, str):
+            return self.bind[v]
+        if self.symbolic and isinstance(v, int) and not isinstance(v, bool):
+            return SymInt(v)
+        return v
 
     # -- leaves -------------------------------------------------------------
     def add_iter_leaf(self, name, cols, rows, engine="it1", kind="seq", min_rows=None, max_rows="exact",
